@@ -27,15 +27,128 @@ type c02RunX struct {
 	c        *rt.Ctx
 	fn       *ssa.Function
 	all      []*ssa.Function
+	up       []*ssa.Function
 	s        *c02Sim
 	sel      *ssa.Select
 	recvMsg  ssa.Value
 	classify *ssa.Call
 }
 
+// c02EventLoopFn finds the function that runs the event loop: the one selecting on Transport.Receive (Run itself, or
+// the helper the loop was moved into).
+func c02EventLoopFn(c *rt.Ctx) *ssa.Function {
+	var out *ssa.Function
+	for _, g := range c02PkgFuncs(c.SSAPkg(c02P)) {
+		for _, in := range an.Instrs(g, false) {
+			sel, ok := in.(*ssa.Select)
+			if !ok {
+				continue
+			}
+			for _, st := range sel.States {
+				if st.Dir != types.RecvOnly {
+					continue
+				}
+				if k, _, ok := an.FieldOf(st.Chan); ok && c02Strip(k) == c02P+".Transport.Receive" {
+					if out != nil && out != g {
+						c.Bail("several functions select on Transport.Receive")
+					}
+					out = g
+				}
+			}
+		}
+	}
+	if out == nil {
+		c.Bail("Run: receive from Transport.Receive not found in the event loop of Run")
+	}
+	return out
+}
+
+// c02TouchesState: a top-level helper or method that the exploration of the event loop must follow because it can
+// act on the instance state or send: it receives a pointer to a struct of the package (the state grouped in a struct,
+// as receiver or parameter) or the rule-dedup map, asks isJustified, or broadcasts.
+func c02TouchesState(g *ssa.Function) bool {
+	switch strings.TrimPrefix(an.FuncName(g), c02P+".") {
+	case "isJustified", "classify", "compare", "awaitCompare":
+		return false
+	}
+	for _, p := range g.Params {
+		if m, ok := p.Type().Underlying().(*types.Map); ok && an.TypeName(m.Key()) == c02P+".dedupKey" {
+			return true
+		}
+		if pt, ok := p.Type().Underlying().(*types.Pointer); ok {
+			if _, isStruct := pt.Elem().Underlying().(*types.Struct); isStruct && strings.HasPrefix(c02Strip(an.TypeName(pt.Elem())), c02P+".") {
+				return true
+			}
+		}
+	}
+	for _, in := range an.Instrs(g, false) {
+		ci, ok := in.(ssa.CallInstruction)
+		if !ok {
+			continue
+		}
+		if call, isCall := in.(*ssa.Call); isCall && c02Static(call, "isJustified") != nil {
+			return true
+		}
+		if !ci.Common().IsInvoke() && ci.Common().StaticCallee() == nil {
+			if k, _, okf := an.FieldOf(ci.Common().Value); okf && c02Strip(k) == c02P+".Transport.Broadcast" {
+				return true
+			}
+		}
+	}
+	return false
+}
+
 func c02NewRunX(c *rt.Ctx) *c02RunX {
-	r := &c02RunX{c: c, fn: c.Fn(c02P + ".Run")}
-	r.all = an.Closure(r.fn)
+	r := &c02RunX{c: c, fn: c02EventLoopFn(c)}
+	// the functions that make up the state machine: the event-loop function with its literals and, transitively, the
+	// helpers and methods it hands the state to
+	follow := map[*ssa.Function]bool{}
+	inAll := map[*ssa.Function]bool{}
+	var add func(g *ssa.Function)
+	add = func(g *ssa.Function) {
+		for _, h := range an.Closure(g) {
+			if inAll[h] {
+				continue
+			}
+			inAll[h] = true
+			r.all = append(r.all, h)
+			for _, in := range an.Instrs(h, false) {
+				ci, ok := in.(ssa.CallInstruction)
+				if !ok || ci.Common().IsInvoke() || ci.Common().StaticCallee() == nil {
+					continue
+				}
+				cal := an.Orig(ci.Common().StaticCallee())
+				if cal.Parent() != nil || cal.Blocks == nil || c02PkgOf(cal) != r.fn.Pkg || follow[cal] || cal == r.fn {
+					continue
+				}
+				if c02TouchesState(cal) {
+					follow[cal] = true
+					add(cal)
+				}
+			}
+		}
+	}
+	add(r.fn)
+	// the functions the event-loop function is called from (Run when the loop was moved into a helper): their locals
+	// may hold the state
+	r.up = []*ssa.Function{r.fn}
+	for i := 0; i < len(r.up) && i < 4; i++ {
+		for _, site := range c02InPkgCallers(r.up[i]) {
+			p := site.Parent()
+			for p.Parent() != nil {
+				p = p.Parent()
+			}
+			dup := false
+			for _, q := range r.up {
+				if q == p {
+					dup = true
+				}
+			}
+			if !dup {
+				r.up = append(r.up, p)
+			}
+		}
+	}
 	for _, in := range an.Instrs(r.fn, false) {
 		sel, ok := in.(*ssa.Select)
 		if !ok {
@@ -72,35 +185,13 @@ func c02NewRunX(c *rt.Ctx) *c02RunX {
 		}
 	}
 	if len(cls) != 1 {
-		c.Bail("Run: expected exactly one classify call in Run and its function literals, found %d", len(cls))
+		c.Bail("Run: expected exactly one classify call in Run and the helpers it hands its state to, found %d", len(cls))
 	}
 	r.classify = cls[0]
 	if len(r.classify.Call.Args) != 6 {
 		c.Bail("classify: unexpected arity")
 	}
 	r.s = c02NewSim(r.fn)
-	// Run's own literals are followed, and package-level helpers that wrap the two things the rules look for: the
-	// isJustified verdict and writes to the rule-dedup map
-	follow := map[*ssa.Function]bool{}
-	for _, g := range an.PkgFuncs(r.fn.Pkg) {
-		if g.Parent() != nil || g == r.fn {
-			continue
-		}
-		switch strings.TrimPrefix(an.FuncName(g), c02P+".") {
-		case "isJustified", "classify", "compare", "awaitCompare":
-			continue
-		}
-		for _, in := range an.Instrs(g, false) {
-			if call, ok := in.(*ssa.Call); ok && c02Static(call, "isJustified") != nil {
-				follow[g] = true
-			}
-		}
-		for _, p := range g.Params {
-			if m, ok := p.Type().Underlying().(*types.Map); ok && an.TypeName(m.Key()) == c02P+".dedupKey" {
-				follow[g] = true
-			}
-		}
-	}
 	r.s.opaque = func(g *ssa.Function) bool { return g.Parent() == nil && !follow[g] }
 	r.s.want = func(g *ssa.Function) bool { return g.Parent() != nil || follow[g] }
 	r.s.boolPhisOnly = true
@@ -109,6 +200,16 @@ func c02NewRunX(c *rt.Ctx) *c02RunX {
 		c.Bail("Run: " + c02Undecided)
 	}
 	return r
+}
+
+// inScope: fn is the event-loop function or one of the functions it is called from.
+func (r *c02RunX) inScope(fn *ssa.Function) bool {
+	for _, q := range r.up {
+		if q == fn {
+			return true
+		}
+	}
+	return false
 }
 
 func (r *c02RunX) isRecv(v ssa.Value, f *c02Frame, st *c02State) bool {
@@ -179,7 +280,11 @@ func (r *c02RunX) stateCell(pred func(t types.Type) bool, what string) c02Cell {
 		}
 		out = c
 	}
-	for _, in := range an.Instrs(r.fn, false) {
+	var ins []ssa.Instruction
+	for _, g := range r.up {
+		ins = append(ins, an.Instrs(g, false)...)
+	}
+	for _, in := range ins {
 		al, ok := in.(*ssa.Alloc)
 		if !ok {
 			continue
@@ -359,9 +464,12 @@ func c02Q3Rule(c *rt.Ctx) {
 	var lastWhy string
 	var unsure bool
 	goodRecord := func(up *ssa.MapUpdate, f *c02Frame, st *c02State) bool {
-		if b, ok := c02ConstBool(s.rootOf(up.Value, f, st).V); !ok || !b {
-			lastWhy = "dedup entry is not set to true"
-			return false
+		// a map of booleans records with `true`; a set (map[key]struct{} and the like) records by presence
+		if mt, isMap := up.Map.Type().Underlying().(*types.Map); !isMap || c02IsBool(mt.Elem()) {
+			if b, ok := c02ConstBool(s.rootOf(up.Value, f, st).V); !ok || !b {
+				lastWhy = "dedup entry is not set to true"
+				return false
+			}
 		}
 		kv := s.rootOf(up.Key, f, st)
 		lit := c02StructLit(kv.V)
@@ -541,7 +649,7 @@ func c02WebRep(p *ssa.Phi) *ssa.Phi {
 // varOf: which state variable of Run does v read?
 func (r *c02RunX) varOf(v ssa.Value, f *c02Frame) c02Var {
 	if cl := r.s.cellOf(v, f, nil); cl.ok() {
-		if cl.al.Parent() == r.fn {
+		if r.inScope(cl.al.Parent()) {
 			return c02Var{cell: cl}
 		}
 		return c02Var{}
@@ -769,7 +877,7 @@ func c02Q5Rule(c *rt.Ctx) {
 		case *ssa.Phi:
 			return x.F == s.root // a register variable of Run
 		case *ssa.Call:
-			if c02Static(y, "zeroVal") != nil {
+			if c02CallOfKind(y, "zero") != nil {
 				return true
 			}
 			if y.Call.IsInvoke() && c02Strip(an.TypeName(y.Call.Value.Type())) == c02P+".Msg" {
